@@ -270,6 +270,11 @@ type descriptor struct {
 	// cancellation, at process level or inside sub-processes - carries a
 	// cancelled context; the construction context is cancelled at the end.
 	SplitRun bool `json:"splitRun,omitempty"`
+	// AppTracer: the instance reports to a tracer of the caller's
+	// (bpmn.WithTracer) that outlives it; the instance's own context is
+	// cancelled as usual. Everything the INSTANCE started must be gone (the
+	// caller's tracer of course stays).
+	AppTracer bool `json:"appTracer,omitempty"`
 }
 
 type result struct {
@@ -313,8 +318,16 @@ func run(d descriptor, k int) *result {
 		defer perturb.Remove()
 	}
 	prog := &gen.Program{G: e.G, DefaultLang: "expr"}
+	appTracer := d.AppTracer && !e.Timer && !e.HostTimer
+	var extra []bpmn.Option
+	if appTracer {
+		// (created before the tracker's baseline is taken: not the instance's)
+		appCtx, appCancel := context.WithCancel(context.Background())
+		defer appCancel()
+		extra = append(extra, bpmn.WithTracer(tracing.NewTracer(appCtx)))
+	}
 	tr := quiesce.Begin()
-	in, err := drive.New(prog.XML(), drive.Options{Vars: e.Vars, Tracker: tr, MockClock: e.Timer, HostTimers: e.HostTimer, HeldIngress: e.HeldIngress, SplitCtx: d.Split || d.SplitRun})
+	in, err := drive.New(prog.XML(), drive.Options{Vars: e.Vars, Tracker: tr, MockClock: e.Timer, HostTimers: e.HostTimer, HeldIngress: e.HeldIngress, SplitCtx: d.Split || d.SplitRun, Extra: extra})
 	if err != nil {
 		r.Symptom, r.Detail = "construct", err.Error()
 		return r
@@ -491,6 +504,9 @@ func run(d descriptor, k int) *result {
 	select {
 	case <-in.P.Tracer().Done():
 	default:
+		if appTracer {
+			break
+		}
 		return finish("tracer-alive", "Tracer().Done() is not closed after cancellation (a registered sender never finished or the broadcaster is blocked)", gs)
 	}
 	done := make(chan struct{})
@@ -503,7 +519,18 @@ func run(d descriptor, k int) *result {
 	default:
 		return finish("call-blocked", "a StartAll / Do / ConsumeEvent call issued before the cancellation has not returned", tr.Mine())
 	}
-	if left := tr.Mine(); len(left) > 0 {
+	left := tr.Mine()
+	if appTracer {
+		// the harness's own reader of the caller's tracer lives as long as that tracer
+		var eng []quiesce.G
+		for _, g := range left {
+			if !strings.Contains(g.Frames, "verif/harness/drive.(*Inst).reader") {
+				eng = append(eng, g)
+			}
+		}
+		left = eng
+	}
+	if len(left) > 0 {
 		var tops []string
 		for _, g := range left {
 			tops = append(tops, g.State+" @ "+g.TopFunc())
@@ -626,6 +653,7 @@ func TestC07Points(t *testing.T) {
 		case 1:
 			d.SplitRun = true
 		}
+		d.AppTracer = rapid.IntRange(0, 3).Draw(rt, "appTracer") == 0
 		one(rt, "TestC07Points", d, totals[i])
 	})
 }
